@@ -400,9 +400,6 @@ Lemma forallb_ext' {A} (f g : A -> bool) l : (forall x, f x = g x) -> forallb f 
 Proof. intros H. induction l; simpl; [reflexivity|]. rewrite H, IHl. reflexivity. Qed.
 
 (* ---------- one step ---------- *)
-Definition guard1 (s : omap) (o : om_op) : bool :=
-  match o with OForAny _ => om_init s | _ => true end.
-
 Lemma forallb_abs (g : Z -> Z) c l :
   forallb (fun p : Z * Z => fst p <? c) (map (fun x => (x, g x)) l) = forallb (fun k => k <? c) l.
 Proof. induction l; simpl; congruence. Qed.
@@ -416,9 +413,9 @@ Proof. intros -> k H. apply hd_error_in, H. Qed.
 Lemma om_step_sim s o :
   wf s ->
   wf (fst (om_step s o)) /\ abs (fst (om_step s o)) = fst (sp_step (abs s) o) /\
-  (guard1 s o = true -> snd (om_step s o) = snd (sp_step (abs s) o)).
+  snd (om_step s o) = snd (sp_step (abs s) o).
 Proof.
-  intros W. destruct o; cbn [om_step sp_step guard1].
+  intros W. destruct o; cbn [om_step sp_step].
   - (* Set *)
     pose proof (om_set_sim s k v W) as H. destruct (om_set s k v) as [s' old].
     destruct H as [W' [EA [EO _]]]. simpl. rewrite EO. auto.
@@ -433,26 +430,26 @@ Proof.
     + destruct (wf_uninit _ W E) as [EA _]. auto.
   - simpl. rewrite om_foreach_abs by exact W. auto.
   - (* Oldest *)
-    simpl. split; [exact W|split; [reflexivity|intros _]]. unfold om_oldest.
+    simpl. split; [exact W|split; [reflexivity|]]. unfold om_oldest.
     destruct (om_init s) eqn:E; simpl.
     + rewrite opt_pair_obs_abs; [|exact W|intros k; apply hd_error_in].
       unfold abs. rewrite hd_error_map. reflexivity.
     + destruct (wf_uninit _ W E) as [-> _]. reflexivity.
   - (* Newest *)
-    simpl. split; [exact W|split; [reflexivity|intros _]]. unfold om_newest.
+    simpl. split; [exact W|split; [reflexivity|]]. unfold om_newest.
     destruct (om_init s) eqn:E; simpl.
     + rewrite opt_pair_obs_abs; [|exact W|intros k H; apply hd_error_in in H; apply in_rev, H].
       unfold abs. rewrite <- map_rev, hd_error_map. reflexivity.
     + destruct (wf_uninit _ W E) as [-> _]. reflexivity.
   - (* Next *)
-    simpl. split; [exact W|split; [reflexivity|intros _]]. unfold om_next.
+    simpl. split; [exact W|split; [reflexivity|]]. unfold om_next.
     destruct (om_init s) eqn:E; simpl.
     + rewrite abs_has by exact W. destruct (ahas k (om_pairs s)); [|reflexivity].
       rewrite opt_pair_obs_abs; [|exact W|intros y; apply lnext_in].
       unfold abs. rewrite lnext_abs. reflexivity.
     + destruct (wf_uninit _ W E) as [-> _]. reflexivity.
   - (* Prev *)
-    simpl. split; [exact W|split; [reflexivity|intros _]]. unfold om_prev.
+    simpl. split; [exact W|split; [reflexivity|]]. unfold om_prev.
     destruct (om_init s) eqn:E; simpl.
     + rewrite abs_has by exact W. destruct (ahas k (om_pairs s)) eqn:Hh; [|reflexivity].
       assert (In k (om_list s)) as Hk by (apply (wf_keys _ W), ahas_in, Hh).
@@ -461,13 +458,15 @@ Proof.
       unfold sp_prev, abs. rewrite <- map_rev, lnext_abs. reflexivity.
     + destruct (wf_uninit _ W E) as [-> _]. reflexivity.
   - (* ForAllKeys *)
-    simpl. split; [exact W|split; [reflexivity|intros _]]. unfold om_forall.
+    simpl. split; [exact W|split; [reflexivity|]]. unfold om_forall.
     destruct (om_init s) eqn:E; simpl.
     + unfold abs. rewrite forallb_abs. reflexivity.
     + destruct (wf_uninit _ W E) as [-> _]. reflexivity.
-  - (* ForAnyKey: agrees only on an initialised map *)
-    simpl. split; [exact W|split; [reflexivity|intros G]]. unfold om_forany. rewrite G. simpl.
-    unfold abs. rewrite existsb_abs. reflexivity.
+  - (* ForAnyKey *)
+    simpl. split; [exact W|split; [reflexivity|]]. unfold om_forany.
+    destruct (om_init s) eqn:E; simpl.
+    + unfold abs. rewrite existsb_abs. reflexivity.
+    + destruct (wf_uninit _ W E) as [-> _]. reflexivity.
   - (* SetAll *)
     destruct (om_build_sim l) as [Wb EAb]. unfold om_setall.
     rewrite om_foreach_abs by exact Wb.
@@ -476,13 +475,13 @@ Proof.
   - (* KeySetIsDisjointFrom *)
     destruct (om_build_sim l) as [Wb EAb]. unfold om_disjoint.
     rewrite om_foreach_abs by exact W. simpl.
-    split; [exact W|split; [reflexivity|intros _]]. f_equal.
+    split; [exact W|split; [reflexivity|]]. f_equal.
     rewrite fold_and_forallb. simpl. apply forallb_ext'. intros p.
     rewrite om_contains_abs, EAb by exact Wb. reflexivity.
   - (* KeySetIntersection *)
     destruct (om_build_sim l) as [Wb EAb]. unfold om_intersection.
     rewrite om_foreach_abs by exact W. simpl.
-    split; [exact W|split; [reflexivity|intros _]].
+    split; [exact W|split; [reflexivity|]].
     destruct (intersection_fold (om_contains (om_build l)) (abs s) om_new wf_new (abs_keys_nodup s W))
       as [Wr EAr]; [intros k _ []|].
     rewrite om_foreach_abs by exact Wr. simpl. f_equal. rewrite EAr. simpl.
@@ -493,49 +492,23 @@ Proof.
     rewrite om_foreach_abs by exact Wb.
     destruct (om_set_list_sim (abs s) om_new wf_new) as [W1 EA1].
     destruct (om_set_list_sim (abs (om_build l)) _ W1) as [W2 EA2]. simpl.
-    split; [exact W|split; [reflexivity|intros _]].
+    split; [exact W|split; [reflexivity|]].
     rewrite om_foreach_abs by exact W2. simpl. rewrite EA2, EA1, EAb. reflexivity.
 Qed.
 
 (* ---------- all histories ---------- *)
-Theorem om_run_refines ops : forall s, wf s -> om_guard s ops = true ->
-  om_run s ops = sp_run (abs s) ops.
+Theorem om_run_refines ops : forall s, wf s -> om_run s ops = sp_run (abs s) ops.
 Proof.
-  induction ops as [|o ops IH]; intros s W G; simpl; [reflexivity|].
-  simpl in G. apply andb_true_iff in G. destruct G as [G1 G2].
+  induction ops as [|o ops IH]; intros s W; simpl; [reflexivity|].
   destruct (om_step_sim s o W) as [W' [EA EO]].
   destruct (om_step s o) as [s' v] eqn:Es. destruct (sp_step (abs s) o) as [l' v'] eqn:El.
-  simpl in *. rewrite EO by exact G1. f_equal. rewrite <- EA. apply IH; assumption.
+  simpl in *. rewrite EO. f_equal. rewrite <- EA. apply IH; assumption.
 Qed.
 
-Corollary om_zero_refines ops : om_guard om_zero ops = true -> om_run om_zero ops = sp_run [] ops.
+Corollary om_zero_refines ops : om_run om_zero ops = sp_run [] ops.
 Proof. apply (om_run_refines ops om_zero wf_zero). Qed.
 Corollary om_new_refines ops : om_run om_new ops = sp_run [] ops.
-Proof.
-  apply (om_run_refines ops om_new wf_new).
-  assert (forall s, wf s -> om_init s = true -> om_guard s ops = true) as H.
-  { induction ops as [|o ops IH]; intros s W E; simpl; [reflexivity|].
-    apply andb_true_iff. split; [destruct o; auto|].
-    apply IH; [apply om_step_sim, W|].
-    destruct o; cbn [om_step]; try exact E.
-    - pose proof (om_set_sim s k v W) as H. destruct (om_set s k v). simpl. tauto.
-    - unfold om_delete. rewrite E. simpl. destruct (alookup k (om_pairs s)); simpl; auto.
-    - unfold om_clear. rewrite E. reflexivity.
-    - destruct (om_setall s (om_build l)) eqn:Es; [|exact E]. simpl.
-      unfold om_setall in Es. destruct (om_foreach (om_build l)); [|discriminate].
-      inversion Es; subst. clear Es.
-      assert (forall ps s, om_init s = true -> om_init (om_set_list s ps) = true) as H.
-      { induction ps as [|[a b] ps IHp]; intros s0 E0; simpl; [exact E0|].
-        apply IHp. unfold om_set, om_ensure. rewrite E0.
-        destruct (alookup a (om_pairs s0)); reflexivity. }
-      apply H, E. }
-  apply H; [apply wf_new|reflexivity].
-Qed.
-
-(* the full-strength statement fails on the unchanged tree: a never-written zero-value map
-   answers ForAnyKey with true, the specification (no key satisfies the predicate) with false *)
-Lemma om_zero_refutes : exists ops, om_run om_zero ops <> sp_run [] ops.
-Proof. exists [OForAny 5]. vm_compute. congruence. Qed.
+Proof. apply (om_run_refines ops om_new wf_new). Qed.
 
 (* order facts of the specification that the property text names *)
 Lemma sp_update_keys k v l : map fst (sp_update k v l) = map fst l.
